@@ -13,7 +13,7 @@ import (
 )
 
 func init() {
-	props["C18"] = &propDef{run: runC18, explanation: "Partial. Decided statically: (O1) every comparator handed to sort.Slice/SliceStable in the metadata package is, on all weak orderings of (time_i, time_j, number_i, number_j), exactly time_i < time_j ∨ (time_i = time_j ∧ number_i < number_j) — the lexicographic anchoring order (finite, exhaustive); the version provider's comparator is a strict order on its single key; (T1) the transformer's purpose switch maps each of the five purposes to its own relationship and covers every purpose the patch validator admits; the key-context table covers every key type the validator admits; (P1) the verification-method literal (id = getObjectID(did, key id), type, controller = did), getObjectID (relative '#id' under @base, did+'#id' otherwise), exactly one append of the method per key and of each reference per purpose, the key-material table per key type, service id/type/endpoint plus copy of every other member; (P2) the metadata field mapping (method metadata, document metadata, published/unpublished operation literals field by field, de-duplication by canonical reference, both lists sorted before use). Not decided: counting statements over arbitrary documents beyond the one-append-per-iteration shape. The context of the key's type is looked up for every key (for-all loop form); each metadata member is stored under conditions on its own source only. The comparator of a sortedness test is held to the same order; the @base context entry is added under exactly the includeBase flag. No equivalent id reported for an unpublished document carries the initial state."}
+	props["C18"] = &propDef{run: runC18, explanation: "Partial. Decided statically: (O1) every comparator handed to sort.Slice/SliceStable in the metadata package is, on all weak orderings of (time_i, time_j, number_i, number_j), exactly time_i < time_j ∨ (time_i = time_j ∧ number_i < number_j) — the lexicographic anchoring order (finite, exhaustive); the version provider's comparator is a strict order on its single key; (T1) the transformer's purpose switch maps each of the five purposes to its own relationship and covers every purpose the patch validator admits; the key-context table covers every key type the validator admits; (P1) the verification-method literal (id = getObjectID(did, key id), type, controller = did), getObjectID (relative '#id' under @base, did+'#id' otherwise), exactly one append of the method per key and of each reference per purpose, the key-material table per key type, service id/type/endpoint plus copy of every other member; (P2) the metadata field mapping (method metadata, document metadata, published/unpublished operation literals field by field, de-duplication by canonical reference, both lists sorted before use). Not decided: counting statements over arbitrary documents beyond the one-append-per-iteration shape. The context of the key's type is looked up for every key (for-all loop form); each metadata member is stored under conditions on its own source only. The comparator of a sortedness test is held to the same order; the @base context entry is added under exactly the includeBase flag. No equivalent id reported for an unpublished document carries the initial state. canonicalId / equivalentId of a published document are unconditional and the canonical id is always an equivalent id; object ids are decided in concatenation form under both values of the @base flag; the key-material table is evaluated on all assignments of its atoms."}
 }
 
 func (c *Ctx) sortComparators(pkgRel string) []*ssa.Function {
@@ -59,13 +59,6 @@ func hasBaseTag(t types.Type) bool {
 func runC18(c *Ctx) {
 	const pMeta = "versions/1_0/doctransformer/metadata"
 	const pDT = "versions/1_0/doctransformer/didtransformer"
-	// the id helper (a method of the transformer or a function), under whatever name it carries now
-	goidName := "getObjectID"
-	if g := c.Method(pDT, "Transformer", "getObjectID"); g != nil {
-		goidName = fname(g)[strings.LastIndex(fname(g), ".")+1:]
-	} else if g := c.Fn(pDT, "getObjectID"); g != nil {
-		goidName = fname(g)[strings.LastIndex(fname(g), ".")+1:]
-	}
 	// ---------------- O1
 	cmps := c.sortComparators(pMeta)
 	for i, less := range cmps {
@@ -187,6 +180,38 @@ func runC18(c *Ctx) {
 			}
 		})
 		sorted = sorted && reads > 0
+		if sortCall == nil && reads > 0 {
+			// the list is sorted by the caller: at every call, the same list went through the sorting function first
+			isSort := func(cl *ssa.Call) bool {
+				g := cl.Call.StaticCallee()
+				if g == nil || !inModule(g) || len(cl.Call.Args) != 1 {
+					return false
+				}
+				for _, cm := range cmps {
+					if cm.Parent() == g {
+						return true
+					}
+				}
+				return false
+			}
+			nCalls, okCalls := 0, true
+			for _, h := range c.Funcs {
+				for _, cl := range callsTo(h, f) {
+					nCalls++
+					arg := c.Path(cl.Call.Args[0], nil)
+					before := false
+					for _, sc := range findCalls(h, isSort) {
+						if c.Path(sc.Call.Args[0], nil) == arg && instrDominates(sc, cl) {
+							before = true
+						}
+					}
+					if !before {
+						okCalls = false
+					}
+				}
+			}
+			sorted = nCalls > 0 && okCalls
+		}
 		c.Check("C18.O1", fn+":sorted-before-use", sorted, f.Pos(), fn+" sorts its input with the checked comparator before building the list")
 	}
 	// version provider comparator: strict order on one key
@@ -229,6 +254,19 @@ func runC18(c *Ctx) {
 	}
 	c.Min("C18.O1", 4)
 
+	// the @base flag is the boolean field the exported option WithBase sets (whatever its name)
+	baseFlag := "includeBase"
+	if wb := c.Fn(pDT, "WithBase"); wb != nil {
+		for _, an := range wb.AnonFuncs {
+			forEachInstr(an, func(in ssa.Instruction) {
+				if st, ok := in.(*ssa.Store); ok {
+					if fa, isFA := st.Addr.(*ssa.FieldAddr); isFA && isBoolType(st.Val.Type()) {
+						baseFlag = fieldName(fa.X.Type(), fa.Field)
+					}
+				}
+			})
+		}
+	}
 	// ---------------- T1
 	pk := c.Method(pDT, "Transformer", "processKeys")
 	if pk == nil {
@@ -243,20 +281,9 @@ func runC18(c *Ctx) {
 					got[unquote(k)] = unquote(c.Path(mu.Key, nil))
 					// the appended value is this key's qualified id
 					if ap, isC := mu.Value.(*ssa.Call); isC && len(ap.Call.Args) == 2 {
-						sl, isSl := ap.Call.Args[1].(*ssa.Slice)
 						okID := false
-						if isSl {
-							if al, isAl := sl.X.(*ssa.Alloc); isAl {
-								for _, fs := range *al.Referrers() {
-									if ia, isIA := fs.(*ssa.IndexAddr); isIA {
-										for _, st := range *ia.Referrers() {
-											if s, isSt := st.(*ssa.Store); isSt && strings.Contains(c.Path(s.Val, nil), goidName+"(") {
-												okID = true
-											}
-										}
-									}
-								}
-							}
+						if els, okV := c.varargValues(ap.Call.Args[1]); okV && len(els) == 1 {
+							okID, _ = c.qualifiedID(els[0], baseFlag, "(document.PublicKey).ID(")
 						}
 						c.Check("C18.T1", "purpose:"+unquote(k)+":references-key-id", okID, mu.Pos(), "the relationship entry is the key's qualified id")
 						// exactly one lookup+append on the same relationship
@@ -338,25 +365,12 @@ func runC18(c *Ctx) {
 	c.Min("C18.T1", 3)
 
 	// ---------------- P1
-	// the @base flag is the boolean field the exported option WithBase sets (whatever its name)
-	baseFlag := "includeBase"
-	if wb := c.Fn(pDT, "WithBase"); wb != nil {
-		for _, an := range wb.AnonFuncs {
-			forEachInstr(an, func(in ssa.Instruction) {
-				if st, ok := in.(*ssa.Store); ok {
-					if fa, isFA := st.Addr.(*ssa.FieldAddr); isFA && isBoolType(st.Val.Type()) {
-						baseFlag = fieldName(fa.X.Type(), fa.Field)
-					}
-				}
-			})
-		}
-	}
 	goid := c.Method(pDT, "Transformer", "getObjectID")
 	if goid == nil {
 		goid = c.Fn(pDT, "getObjectID")
 	}
 	if goid == nil {
-		c.Unresolved("C18.P1", "getObjectID")
+		// no such helper any more: the ids themselves are decided below (qualifiedID), which does not need it
 	} else {
 		// two exits: "#"+object under the @base flag, document+"#"+object otherwise; the flag is the transformer's
 		// includeBase, read in the helper or handed to it by every caller
@@ -518,10 +532,12 @@ func runC18(c *Ctx) {
 		c.Unresolved("C18.P1", "(*Transformer).TransformDocument")
 	}
 	if pk != nil {
+		c.qualifiedIDRule("C18.P1", "verification-method", pk, "document.PublicKey", baseFlag, "(document.PublicKey).ID(")
 		c.mapLiteralRule("C18.P1", "verification-method", pk, "document.PublicKey", map[string]func(string) bool{
-			`"id"`:         func(s string) bool { return strings.Contains(s, goidName+"(") && strings.Contains(s, ").ID(") },
-			`"type"`:       func(s string) bool { return strings.HasPrefix(s, "(document.PublicKey).Type(") },
-			`"controller"`: func(s string) bool { return strings.Contains(s, ").ID(") && !strings.Contains(s, "getObjectID") },
+			`"type"`: func(s string) bool { return strings.HasPrefix(s, "(document.PublicKey).Type(") },
+			`"controller"`: func(s string) bool {
+				return strings.Contains(s, ").ID(") && strings.Contains(s, ".Document") && !strings.Contains(s, " + ") && !strings.Contains(s, "[ι]")
+			},
 		})
 		// the context of the key's type is looked up for every key (an iteration that skips the lookup leaves a key type
 		// used in the document without its @context entry)
@@ -536,10 +552,8 @@ func runC18(c *Ctx) {
 	}
 	if ps := c.Method(pDT, "Transformer", "processServices"); ps != nil {
 		c.Analysed(ps)
+		c.qualifiedIDRule("C18.P1", "service", ps, "document.Service", baseFlag, "(document.Service).ID(")
 		c.mapLiteralRule("C18.P1", "service", ps, "document.Service", map[string]func(string) bool{
-			`"id"`: func(s string) bool {
-				return strings.Contains(s, goidName+"(") && strings.Contains(s, "(document.Service).ID(")
-			},
 			`"type"`:            func(s string) bool { return strings.HasPrefix(s, "(document.Service).Type(") },
 			`"serviceEndpoint"`: func(s string) bool { return strings.HasPrefix(s, "(document.Service).ServiceEndpoint(") },
 		})
@@ -607,6 +621,10 @@ func runC18(c *Ctx) {
 	c.metadataMapping(pMeta)
 	// the equivalentId the metadata reports for an unpublished document is what docutil builds: short-form ids only
 	c.equivalentIDsShortForm("C18.P2")
+	c.publishedIDsRule("C18.P2")
+	c.transformStepsRule("C18.P1")
+	c.contextDedupRule("C18.P1")
+	c.genericIDRule("C18.P1")
 }
 
 // mapLiteralRule: in f there is a freshly made map of the named type whose constant-key updates satisfy preds.
@@ -700,8 +718,6 @@ func (c *Ctx) oneAppendPerIteration(rule, key string, f *ssa.Function, sliceType
 
 // keyMaterialTable: which external member receives the key material, per (has JWK, type).
 func (c *Ctx) keyMaterialTable(pk *ssa.Function) {
-	type row struct{ member, value string }
-	var rows []string
 	// the stores may sit in processKeys itself or in a helper that receives the external key map
 	type scanJob struct {
 		f     *ssa.Function
@@ -728,47 +744,160 @@ func (c *Ctx) keyMaterialTable(pk *ssa.Function) {
 			}
 		}
 	})
+	// atoms of the decision: what the stores may depend on
+	atoms := []string{"jwk", "t2018", "t2020", "b58", "mb"}
+	atomOf := func(cp string) (string, bool, bool) {
+		cp = strings.ReplaceAll(cp, "(document.PublicKey).", "")
+		cp = keyElemRe.ReplaceAllString(cp, "k")
+		switch cp {
+		case "(PublicKeyJwk(k) != nil)":
+			return "jwk", true, true
+		case "(PublicKeyJwk(k) == nil)":
+			return "jwk", false, true
+		case `(Type(k) == "Ed25519VerificationKey2018")`, `("Ed25519VerificationKey2018" == Type(k))`:
+			return "t2018", true, true
+		case `(Type(k) != "Ed25519VerificationKey2018")`:
+			return "t2018", false, true
+		case `(Type(k) == "Ed25519VerificationKey2020")`, `("Ed25519VerificationKey2020" == Type(k))`:
+			return "t2020", true, true
+		case `(Type(k) != "Ed25519VerificationKey2020")`:
+			return "t2020", false, true
+		case `(PublicKeyBase58(k) != "")`, `(len(PublicKeyBase58(k)) > 0)`, `(len(PublicKeyBase58(k)) != 0)`:
+			return "b58", true, true
+		case `(PublicKeyBase58(k) == "")`, `(len(PublicKeyBase58(k)) == 0)`:
+			return "b58", false, true
+		case `(PublicKeyMultibase(k) != "")`, `(len(PublicKeyMultibase(k)) > 0)`, `(len(PublicKeyMultibase(k)) != 0)`:
+			return "mb", true, true
+		case `(PublicKeyMultibase(k) == "")`, `(len(PublicKeyMultibase(k)) == 0)`:
+			return "mb", false, true
+		}
+		return "", false, false
+	}
+	type trow struct {
+		asg    map[string]bool
+		member string
+		val    string
+	}
+	var trows []trow
+	var undecided []string
+	// pathAssignments: the partial assignments of the atoms under which blk is reached from the entry of its function
+	// (every acyclic path; a path that needs an atom both ways is infeasible). Conditions that are not atoms but mention
+	// the key's accessors are reported.
+	pathAssignments := func(blk *ssa.BasicBlock, env Env) []map[string]bool {
+		fn := blk.Parent()
+		enc := func(m map[string]bool) string {
+			var ks []string
+			for k, v := range m {
+				ks = append(ks, fmt.Sprintf("%s=%v", k, v))
+			}
+			sort.Strings(ks)
+			return strings.Join(ks, ",")
+		}
+		states := map[*ssa.BasicBlock]map[string]map[string]bool{fn.Blocks[0]: {"": {}}}
+		// reverse post-order over forward edges (an edge to a dominator of its source is a back edge)
+		var order []*ssa.BasicBlock
+		seen := map[*ssa.BasicBlock]bool{}
+		var dfs func(b *ssa.BasicBlock)
+		dfs = func(b *ssa.BasicBlock) {
+			seen[b] = true
+			for _, s := range b.Succs {
+				if !seen[s] && !s.Dominates(b) {
+					dfs(s)
+				}
+			}
+			order = append(order, b)
+		}
+		dfs(fn.Blocks[0])
+		for i := len(order) - 1; i >= 0; i-- {
+			b := order[i]
+			if b == blk {
+				break
+			}
+			cur := states[b]
+			if len(cur) == 0 {
+				continue
+			}
+			atom, pol, isAtom := "", false, false
+			if iff, isIf := b.Instrs[len(b.Instrs)-1].(*ssa.If); isIf {
+				cond := iff.Cond
+				neg := false
+				for {
+					u, isU := cond.(*ssa.UnOp)
+					if !isU || u.Op != token.NOT {
+						break
+					}
+					cond, neg = u.X, !neg
+				}
+				cp := c.Path(cond, env)
+				atom, pol, isAtom = atomOf(cp)
+				if neg {
+					pol = !pol
+				}
+				if !isAtom && !strings.Contains(cp, "#1") && (strings.Contains(cp, ").Type(") || strings.Contains(cp, "PublicKeyJwk(") || strings.Contains(cp, "PublicKeyBase58(") || strings.Contains(cp, "PublicKeyMultibase(")) {
+					undecided = append(undecided, cp)
+				}
+			}
+			for si, sc := range b.Succs {
+				if sc.Dominates(b) {
+					continue
+				}
+				for _, m := range cur {
+					nm := m
+					if isAtom {
+						want := pol == (si == 0)
+						if have, set := m[atom]; set {
+							if have != want {
+								continue
+							}
+						} else {
+							nm = map[string]bool{atom: want}
+							for k, v := range m {
+								nm[k] = v
+							}
+						}
+					}
+					if states[sc] == nil {
+						states[sc] = map[string]map[string]bool{}
+					}
+					states[sc][enc(nm)] = nm
+				}
+			}
+		}
+		var out []map[string]bool
+		var ks []string
+		for k := range states[blk] {
+			ks = append(ks, k)
+		}
+		sort.Strings(ks)
+		for _, k := range ks {
+			out = append(out, states[blk][k])
+		}
+		return out
+	}
 	var emit func(blk *ssa.BasicBlock, env Env, k, v string)
 	emit = func(blk *ssa.BasicBlock, env Env, k, v string) {
-		{
-			if k != "publicKeyJwk" && k != "publicKeyBase58" && k != "publicKeyMultibase" {
-				return
-			}
-			// conditions on the key type along the dominating If chain
-			var conds []string
-			for b := blk; b != nil; b = b.Idom() {
-				id := b.Idom()
-				if id == nil {
-					break
-				}
-				if iff, isIf := id.Instrs[len(id.Instrs)-1].(*ssa.If); isIf && len(b.Preds) == 1 {
-					cp := c.Path(iff.Cond, env)
-					if !strings.Contains(cp, "#1") && (strings.Contains(cp, ").Type(") || strings.Contains(cp, "PublicKeyJwk(") || strings.Contains(cp, "PublicKeyBase58(") || strings.Contains(cp, "PublicKeyMultibase(")) {
-						pol := id.Succs[0] == b
-						cp = strings.ReplaceAll(cp, "(document.PublicKey).", "")
-						cp = strings.ReplaceAll(cp, "(document.DIDDocument).PublicKeys($1)[ι]", "k")
-						conds = append([]string{fmt.Sprintf("%s=%v", cp, pol)}, conds...)
-					}
-				}
-			}
-			val := "?"
-			switch {
-			case strings.HasPrefix(v, "github.com/btcsuite/btcutil/base58.Encode(") && strings.Contains(v, "getED2519PublicKey("):
-				val = "base58(ed25519 key from JWK)"
-			case strings.Contains(v, "go-multibase.Encode(") && strings.Contains(v, "getED2519PublicKey(") && strings.Contains(v, "go-multibase.Encode(122,"):
-				val = "multibase-base58btc(ed25519 key from JWK)"
-			case strings.HasSuffix(v, ").PublicKeyJwk((document.DIDDocument).PublicKeys($1)[ι])"):
-				val = "jwk passthrough"
-			case strings.HasSuffix(v, ").PublicKeyBase58((document.DIDDocument).PublicKeys($1)[ι])"):
-				val = "base58 passthrough"
-			case strings.HasSuffix(v, ").PublicKeyMultibase((document.DIDDocument).PublicKeys($1)[ι])"):
-				val = "multibase passthrough"
-			case v == "nil":
-				val = "nil"
-			default:
-				val = v
-			}
-			rows = append(rows, strings.Join(conds, " ∧ ")+" ⇒ "+k+" := "+val)
+		if k != "publicKeyJwk" && k != "publicKeyBase58" && k != "publicKeyMultibase" {
+			return
+		}
+		val := "?"
+		switch {
+		case strings.HasPrefix(v, "github.com/btcsuite/btcutil/base58.Encode(") && strings.Contains(v, "getED2519PublicKey("):
+			val = "base58(ed25519 key from JWK)"
+		case strings.Contains(v, "go-multibase.Encode(") && strings.Contains(v, "getED2519PublicKey(") && strings.Contains(v, "go-multibase.Encode(122,"):
+			val = "multibase-base58btc(ed25519 key from JWK)"
+		case strings.HasSuffix(keyElemRe.ReplaceAllString(v, "k"), ").PublicKeyJwk(k)"):
+			val = "jwk passthrough"
+		case strings.HasSuffix(keyElemRe.ReplaceAllString(v, "k"), ").PublicKeyBase58(k)"):
+			val = "base58 passthrough"
+		case strings.HasSuffix(keyElemRe.ReplaceAllString(v, "k"), ").PublicKeyMultibase(k)"):
+			val = "multibase passthrough"
+		case v == "nil":
+			val = "nil"
+		default:
+			val = v
+		}
+		for _, m := range pathAssignments(blk, env) {
+			trows = append(trows, trow{m, k, val})
 		}
 	}
 	for _, job := range jobs {
@@ -797,28 +926,63 @@ func (c *Ctx) keyMaterialTable(pk *ssa.Function) {
 			emit(mu.Block(), env, unquote(c.Path(mu.Key, env)), c.Path(mu.Value, env))
 		})
 	}
-	sort.Strings(rows)
-	want := []string{
-		`(PublicKeyBase58(k) != "")=true ∧ (PublicKeyJwk(k) != nil)=false ⇒ publicKeyBase58 := base58 passthrough`,
-		`(PublicKeyJwk(k) != nil)=false ∧ (PublicKeyBase58(k) != "")=false ∧ (PublicKeyMultibase(k) != "")=false ⇒ publicKeyJwk := nil`,
-		`(PublicKeyJwk(k) != nil)=false ∧ (PublicKeyBase58(k) != "")=false ∧ (PublicKeyMultibase(k) != "")=true ⇒ publicKeyMultibase := multibase passthrough`,
-		`(PublicKeyJwk(k) != nil)=true ∧ (Type(k) == "Ed25519VerificationKey2018")=false ∧ (Type(k) == "Ed25519VerificationKey2020")=false ⇒ publicKeyJwk := jwk passthrough`,
-		`(PublicKeyJwk(k) != nil)=true ∧ (Type(k) == "Ed25519VerificationKey2018")=false ∧ (Type(k) == "Ed25519VerificationKey2020")=true ⇒ publicKeyMultibase := multibase-base58btc(ed25519 key from JWK)`,
-		`(PublicKeyJwk(k) != nil)=true ∧ (Type(k) == "Ed25519VerificationKey2018")=true ⇒ publicKeyBase58 := base58(ed25519 key from JWK)`,
-	}
-	norm := func(rs []string) []string {
-		var out []string
-		for _, r := range rs {
-			parts := strings.SplitN(r, " ⇒ ", 2)
-			cs := strings.Split(parts[0], " ∧ ")
-			sort.Strings(cs)
-			out = append(out, strings.Join(cs, " ∧ ")+" ⇒ "+parts[1])
+	// the table, assignment by assignment (a key is of at most one type)
+	expected := func(m map[string]bool) string {
+		switch {
+		case m["jwk"] && m["t2018"]:
+			return "publicKeyBase58 := base58(ed25519 key from JWK)"
+		case m["jwk"] && m["t2020"]:
+			return "publicKeyMultibase := multibase-base58btc(ed25519 key from JWK)"
+		case m["jwk"]:
+			return "publicKeyJwk := jwk passthrough"
+		case m["b58"]:
+			return "publicKeyBase58 := base58 passthrough"
+		case m["mb"]:
+			return "publicKeyMultibase := multibase passthrough"
 		}
-		sort.Strings(out)
-		return out
+		return "publicKeyJwk := nil"
 	}
-	g, w := norm(rows), norm(want)
-	c.Check("C18.P1", "key-material-table", eqStrs(g, w), pk.Pos(), fmt.Sprintf("key material table:\n  got  %s\n  want %s", strings.Join(g, "\n       "), strings.Join(w, "\n       ")))
+	var diffs []string
+	nAsg := 0
+	for bits := 0; bits < 1<<len(atoms); bits++ {
+		m := map[string]bool{}
+		var label []string
+		for i, a := range atoms {
+			m[a] = bits&(1<<i) != 0
+			label = append(label, fmt.Sprintf("%s=%v", a, m[a]))
+		}
+		if m["t2018"] && m["t2020"] {
+			continue
+		}
+		nAsg++
+		got := map[string]bool{}
+		for _, r := range trows {
+			okRow := true
+			for k, v := range r.asg {
+				if m[k] != v {
+					okRow = false
+				}
+			}
+			if okRow {
+				got[r.member+" := "+r.val] = true
+			}
+		}
+		var gs []string
+		for g := range got {
+			gs = append(gs, g)
+		}
+		sort.Strings(gs)
+		if len(gs) != 1 || gs[0] != expected(m) {
+			diffs = append(diffs, fmt.Sprintf("%s: stores %v (expected [%s])", strings.Join(label, " "), gs, expected(m)))
+		}
+	}
+	if len(diffs) > 6 {
+		diffs = append(diffs[:6], fmt.Sprintf("… and %d more", len(diffs)-6))
+	}
+	for _, u := range undecided {
+		diffs = append(diffs, "condition on the key not understood: "+u)
+	}
+	c.Check("C18.P1", "key-material-table", len(diffs) == 0 && len(trows) >= 6, pk.Pos(), fmt.Sprintf("key material member and value for every combination of (has JWK, type 2018, type 2020, has base58, has multibase): %d combinations, %d store rows", nAsg, len(trows)), diffs...)
 }
 
 func (c *Ctx) metadataMapping(pMeta string) {
@@ -859,6 +1023,64 @@ func (c *Ctx) metadataMapping(pMeta string) {
 	type upd struct{ key, val string }
 	var ups []upd
 	tenvs := c.tableLoopEnvs(host, henv)
+	// stores made by an unexported helper that is handed the map being filled and the member's name: the helper's store,
+	// under the arguments of each call
+	type hstore struct {
+		mu  *ssa.MapUpdate
+		env Env
+		via *ssa.Call
+	}
+	var hstores []hstore
+	forEachInstr(host, func(in ssa.Instruction) {
+		cl, ok := in.(*ssa.Call)
+		if !ok {
+			return
+		}
+		g := cl.Call.StaticCallee()
+		if g == nil || !inModule(g) || g.Blocks == nil || g.Object() == nil || g.Object().Exported() || pkgPathOf(g) != pkgPathOf(host) {
+			return
+		}
+		// … or a helper that makes a map, fills it and hands it back (the method-metadata part built on its own)
+		genvR := c.calleeEnv(&cl.Call, g, henv)
+		for _, r := range successReturns(g) {
+			if len(r.Results) == 0 {
+				continue
+			}
+			mm, isMM := stripConv(returnedValue(r, 0)).(*ssa.MakeMap)
+			if !isMM {
+				continue
+			}
+			for _, rf := range *mm.Referrers() {
+				if mu, isMU := rf.(*ssa.MapUpdate); isMU && mu.Map == ssa.Value(mm) {
+					if k := c.Path(mu.Key, genvR); strings.HasPrefix(k, `"`) {
+						dup := false
+						for _, h := range hstores {
+							if h.mu == mu {
+								dup = true
+							}
+						}
+						if !dup {
+							hstores = append(hstores, hstore{mu, genvR, cl})
+						}
+					}
+				}
+			}
+		}
+		for i, a := range cl.Call.Args {
+			if _, isMM := a.(*ssa.MakeMap); !isMM || i >= len(g.Params) {
+				continue
+			}
+			p := g.Params[i]
+			genv := c.calleeEnv(&cl.Call, g, henv)
+			forEachInstr(g, func(in2 ssa.Instruction) {
+				if mu, isMU := in2.(*ssa.MapUpdate); isMU && mu.Map == ssa.Value(p) {
+					if k := c.Path(mu.Key, genv); strings.HasPrefix(k, `"`) {
+						hstores = append(hstores, hstore{mu, genv, cl})
+					}
+				}
+			})
+		}
+	})
 	forEachInstr(host, func(in ssa.Instruction) {
 		if mu, ok := in.(*ssa.MapUpdate); ok {
 			if _, isK := mu.Key.(*ssa.Const); isK {
@@ -873,6 +1095,9 @@ func (c *Ctx) metadataMapping(pMeta string) {
 			}
 		}
 	})
+	for _, hs := range hstores {
+		ups = append(ups, upd{unquote(c.Path(hs.mu.Key, hs.env)), c.Path(hs.mu.Value, hs.env)})
+	}
 	want := map[string]func(string) bool{
 		"published":             func(s string) bool { return s == `$2["published"]#0` },
 		"recoveryCommitment":    pathIs("$1.RecoveryCommitment"),
@@ -880,13 +1105,15 @@ func (c *Ctx) metadataMapping(pMeta string) {
 		"anchorOrigin":          pathIs("$1.AnchorOrigin"),
 		"unpublishedOperations": func(s string) bool { return strings.HasSuffix(s, "($1.UnpublishedOperations)") },
 		"publishedOperations":   func(s string) bool { return strings.HasSuffix(s, "($1.PublishedOperations)") },
-		"method":                func(s string) bool { return strings.HasPrefix(s, "makemap<") },
-		"deactivated":           pathIs("$1.Deactivated"),
-		"canonicalId":           func(s string) bool { return s == `$2["canonicalId"]#0` },
-		"equivalentId":          func(s string) bool { return s == `$2["equivalentId"]#0` },
-		"created":               func(s string) bool { return strings.Contains(s, "$1.CreatedTime") },
-		"versionId":             pathIs("$1.VersionID"),
-		"updated":               func(s string) bool { return strings.Contains(s, "$1.UpdatedTime") },
+		"method": func(s string) bool {
+			return strings.HasPrefix(s, "makemap<") || (strings.HasPrefix(s, "(*versions/1_0/doctransformer/metadata.Metadata).") && strings.Contains(s, "($0,$1,"))
+		},
+		"deactivated":  pathIs("$1.Deactivated"),
+		"canonicalId":  func(s string) bool { return s == `$2["canonicalId"]#0` },
+		"equivalentId": func(s string) bool { return s == `$2["equivalentId"]#0` },
+		"created":      func(s string) bool { return strings.Contains(s, "$1.CreatedTime") },
+		"versionId":    pathIs("$1.VersionID"),
+		"updated":      func(s string) bool { return strings.Contains(s, "$1.UpdatedTime") },
 	}
 	seen := map[string]bool{}
 	for _, u := range ups {
@@ -923,21 +1150,21 @@ func (c *Ctx) metadataMapping(pMeta string) {
 	entryGuard := func(cnd string) bool {
 		return loopControl.MatchString(cnd) || strings.HasPrefix(cnd, "($1 ") || strings.HasPrefix(cnd, "($1.Doc ") || strings.HasPrefix(cnd, "($2 ") || cnd == `$2["published"]#1=true`
 	}
-	forEachInstr(host, func(in ssa.Instruction) {
-		mu, ok := in.(*ssa.MapUpdate)
-		if !ok {
-			return
-		}
-		if _, isK := mu.Key.(*ssa.Const); !isK {
-			return
-		}
-		key := unquote(c.Path(mu.Key, nil))
+	condCheck := func(mu *ssa.MapUpdate, env Env, via *ssa.Call) {
+		key := unquote(c.Path(mu.Key, env))
 		allow, known := allowedConds[key]
 		if !known {
 			return
 		}
 		var foreign []string
-		for _, cnd := range c.condsOf(mu.Block()) {
+		conds := c.condsOf(mu.Block())
+		if via != nil {
+			c.condEnv = env
+			conds = c.condsOf(mu.Block())
+			c.condEnv = henv
+			conds = append(conds, c.condsOf(via.Block())...)
+		}
+		for _, cnd := range conds {
 			if entryGuard(cnd) {
 				continue
 			}
@@ -952,7 +1179,17 @@ func (c *Ctx) metadataMapping(pMeta string) {
 			}
 		}
 		c.Check("C18.P2", "metadata:"+key+":conditions", len(foreign) == 0, mu.Pos(), fmt.Sprintf("member %q is stored under conditions on its own source only (foreign conditions: %v)", key, foreign))
+	}
+	forEachInstr(host, func(in ssa.Instruction) {
+		if mu, ok := in.(*ssa.MapUpdate); ok {
+			if _, isK := mu.Key.(*ssa.Const); isK {
+				condCheck(mu, nil, nil)
+			}
+		}
 	})
+	for _, hs := range hstores {
+		condCheck(hs.mu, hs.env, hs.via)
+	}
 	// created only when published
 	evCreated := func(in ssa.Instruction) bool {
 		mu, ok := in.(*ssa.MapUpdate)
@@ -1014,3 +1251,146 @@ func (c *Ctx) metadataMapping(pMeta string) {
 }
 
 var _ = token.ADD
+
+// qualifiedID: v is the qualified id of an object of the document — relative ("#" + object id) when the transformer's
+// @base flag is set, absolute (document id + "#" + object id) when it is not — however it is put together (a helper
+// that builds the whole id, a prefix computed once, plain concatenation). Decided on the concatenation form of v with
+// the flag assumed true, then false.
+func (c *Ctx) qualifiedID(v ssa.Value, baseFlag, objMarker string) (bool, string) {
+	form := func(flag bool) []string {
+		oldS, oldV, oldL := c.assumeSuffix, c.assumeValue, c.phiEdgeLive
+		c.assumeSuffix, c.assumeValue = "."+baseFlag, flag
+		c.phiEdgeLive = func(phi *ssa.Phi, i int) bool {
+			f := phi.Parent()
+			cut := c.pruned(f, nil)
+			live := reach(f.Blocks[0], cut)
+			pred := phi.Block().Preds[i]
+			_, l := live[pred]
+			return l && !cut[edge{from: pred, to: phi.Block()}]
+		}
+		defer func() { c.assumeSuffix, c.assumeValue, c.phiEdgeLive = oldS, oldV, oldL }()
+		return strings.Split(c.concatForm(v, nil), " ++ ")
+	}
+	rel, abs := form(true), form(false)
+	detail := fmt.Sprintf("under @base: %s; otherwise: %s", strings.Join(rel, " ++ "), strings.Join(abs, " ++ "))
+	if len(rel) != 2 || rel[0] != `"#"` || !strings.Contains(rel[1], objMarker) || !strings.Contains(rel[1], "[ι]") {
+		return false, detail
+	}
+	if len(abs) != 3 || abs[1] != `"#"` || abs[2] != rel[1] || !strings.Contains(abs[0], ").ID(") || !strings.Contains(abs[0], ".Document") || strings.Contains(abs[0], "[ι]") {
+		return false, detail
+	}
+	return true, detail
+}
+
+// qualifiedIDRule: the "id" member of the freshly made external object map in f is the object's qualified id.
+func (c *Ctx) qualifiedIDRule(rule, key string, f *ssa.Function, mapType, baseFlag, objMarker string) {
+	n := 0
+	forEachInstr(f, func(in ssa.Instruction) {
+		mu, ok := in.(*ssa.MapUpdate)
+		if !ok {
+			return
+		}
+		mm, isMM := mu.Map.(*ssa.MakeMap)
+		if !isMM || typeShort(mm.Type()) != mapType || c.Path(mu.Key, nil) != `"id"` {
+			return
+		}
+		n++
+		okID, detail := c.qualifiedID(mu.Value, baseFlag, objMarker)
+		c.Check(rule, key+":id", okID, mu.Pos(), fmt.Sprintf("external %s member \"id\" is '#'+id under @base, did+'#'+id otherwise (%s)", key, detail))
+	})
+	if n == 0 {
+		c.Check(rule, key+":id", false, f.Pos(), "no \"id\" member stored in a fresh "+mapType)
+	}
+}
+
+// keyElemRe: the key under consideration in the loop over the internal document's keys — the element of
+// internal.PublicKeys() or of a key list the function is handed.
+var keyElemRe = regexp.MustCompile(`\(document\.DIDDocument\)\.PublicKeys\([^\[\]]*\)\[ι\]|\$\d+\[ι\]`)
+
+// transformStepsRule: every accepting exit of the DID transformer's TransformDocument lies behind both the key step and
+// the service step (an early "nothing to do" return before one of them drops that part of the document).
+func (c *Ctx) transformStepsRule(rule string) {
+	const pDT = "versions/1_0/doctransformer/didtransformer"
+	td := c.Method(pDT, "Transformer", "TransformDocument")
+	pk := c.Method(pDT, "Transformer", "processKeys")
+	ps := c.Method(pDT, "Transformer", "processServices")
+	if td == nil || pk == nil || ps == nil {
+		c.Unresolved(rule, "didtransformer TransformDocument / processKeys / processServices")
+		return
+	}
+	c.CheckGuard(rule, "TransformDocument:keys-processed-on-every-accepting-path", td, nil, callTo("processKeys", pk))
+	c.CheckGuard(rule, "TransformDocument:services-processed-on-every-accepting-path", td, nil, &GCheck{Name: "processServices called", NoDescend: true, MatchCall: func(c *Ctx, call *ssa.Call, env Env) bool {
+		return call.Call.StaticCallee() == ps
+	}})
+}
+
+// contextDedupRule: "one context per key type used": the test that keeps a key-type context from being added twice is
+// an equality membership test on the list of contexts (a substring / prefix match drops a context that is contained in
+// another one).
+func (c *Ctx) contextDedupRule(rule string) {
+	const pDT = "versions/1_0/doctransformer/didtransformer"
+	pk := c.Method(pDT, "Transformer", "processKeys")
+	if pk == nil {
+		c.Unresolved(rule, "didtransformer processKeys")
+		return
+	}
+	n, bad := 0, 0
+	for _, h := range append([]*ssa.Function{pk}, c.helpersOf(pk, 1)...) {
+		for _, cl := range findCalls(h, func(cl *ssa.Call) bool {
+			g := cl.Call.StaticCallee()
+			if g == nil || len(cl.Call.Args) != 2 || !isBoolType(cl.Type()) {
+				return false
+			}
+			l, w := memberArgs(cl)
+			return types.TypeString(l.Type().Underlying(), nil) == "[]string" && isStringType(w.Type())
+		}) {
+			n++
+			if isM, _ := c.isMembershipFn(cl.Call.StaticCallee()); !isM {
+				bad++
+			}
+		}
+	}
+	c.Check(rule, "key-context:dedup-by-equality", n >= 1 && bad == 0, pk.Pos(), fmt.Sprintf("%d membership test(s) on a list of strings in processKeys; each compares for equality (%d do not)", n, bad))
+}
+
+// genericIDRule: the generic transformer's result is identified by the id of the transformation info: after the id is
+// stored in the result document nothing else is stored into it that could replace it (a member-by-member copy of the
+// internal document AFTER the id lets an "id" member of the content win).
+func (c *Ctx) genericIDRule(rule string) {
+	td := c.Method("versions/1_0/doctransformer/doctransformer", "Transformer", "TransformDocument")
+	if td == nil {
+		c.Unresolved(rule, "doctransformer.TransformDocument")
+		return
+	}
+	c.Analysed(td)
+	var idStore *ssa.MapUpdate
+	forEachInstr(td, func(in ssa.Instruction) {
+		if mu, ok := in.(*ssa.MapUpdate); ok && c.Path(mu.Key, nil) == `"id"` && strings.Contains(c.Path(mu.Value, nil), `["id"]`) {
+			idStore = mu
+		}
+	})
+	if idStore == nil {
+		c.Check(rule, "generic:id-from-transformation-info", false, td.Pos(), "no store of info[\"id\"] under \"id\" into the result document")
+		return
+	}
+	var later []string
+	after := reach(idStore.Block(), nil)
+	forEachInstr(td, func(in ssa.Instruction) {
+		mu, ok := in.(*ssa.MapUpdate)
+		if !ok || mu == idStore || c.Path(mu.Map, nil) != c.Path(idStore.Map, nil) {
+			return
+		}
+		_, reachable := after[mu.Block()]
+		if mu.Block() == idStore.Block() {
+			reachable = instrBefore(idStore, mu)
+		}
+		if !reachable {
+			return
+		}
+		if k, isK := mu.Key.(*ssa.Const); isK && c.Path(k, nil) != `"id"` {
+			return
+		}
+		later = append(later, c.pos(mu.Pos())+": ["+c.Path(mu.Key, nil)+"]")
+	})
+	c.Check(rule, "generic:id-from-transformation-info", len(later) == 0, idStore.Pos(), "the id of the transformation info is the last thing stored under a possibly-\"id\" key of the result document", later...)
+}
